@@ -151,6 +151,7 @@ func c17Forwarder(c *Check) {
 		subs := ParamsOfType(ctor, msgPkg+".Subscriber")
 		c.Report(len(subs) == 1 && FromParam(subs[0])(Arg(ad, 2)), P+".O2", "FORWARDER-SUBSCRIBER", ctor, ad.Pos(), "registration", "the forwarder consumes from the given subscriber")
 	}
+	c17ForwarderMiddlewares(c, P+".O2")
 }
 
 // tailReturns counts the returns whose last result is exactly the tracked
@@ -874,4 +875,31 @@ func expandHelperInts(os []ssa.Value, pkg *ssa.Package, isMsg func(ssa.Value) bo
 		}
 	}
 	return out, ok
+}
+
+// c17ForwarderMiddlewares: Config.Middlewares wrap the forwarder's own handler
+// only — the Router may be shared (Config.Router), so they are registered on
+// the Handler that AddNoPublisherHandler returned, never on the Router.
+// Shared with C09 (scoping of middlewares).
+func c17ForwarderMiddlewares(c *Check, id string) {
+	ctor := c.P.Func("components/forwarder", "NewForwarder")
+	if ctor == nil {
+		return
+	}
+	n := 0
+	for _, cl := range CallsIn(ctor) {
+		name := CalleeName(cl)
+		isRouter := name == "(*"+msgPkg+".Router).AddMiddleware"
+		isHandler := name == "(*"+msgPkg+".Handler).AddMiddleware"
+		if !isRouter && !isHandler {
+			continue
+		}
+		if !AllOrigins(cl.Common().Args[len(cl.Common().Args)-1], exportedFieldLoad("Middlewares")) {
+			continue
+		}
+		n++
+		okH := isHandler && AllOrigins(Receiver(cl), ResultOfAny(CallsTo(ctor, nAddNoPub), 0))
+		c.Report(okH, id, "FORWARDER-MIDDLEWARES-ON-ITS-HANDLER", ctor, cl.Pos(), "registration of Config.Middlewares", "the configured middlewares are added to the forwarder's own handler (handler-level), not to the router, which other handlers may share")
+	}
+	c.Floor(id, "registration of Config.Middlewares in NewForwarder", n, 1)
 }
